@@ -318,7 +318,26 @@ fn check_script(rep: &mut Report, script: &[String], property: Option<&str>, dir
                                 if got.as_ref().ok() != Some(&want) { rep.fail(if got.is_err() { "panic" } else { "oracle" }, "C11/search-differs", ctx.clone(), &format!("{:?}", want), &format!("{:?}", got)); break; }
                             }
                         }
-
+                        // the decoded store also BEHAVES like the encoded one on the next operations: with generated
+                        // identifiers switched on, a new annotation without identifier (on a new resource, with new
+                        // data without identifier) gets identifiers of the same shape, and lands at the same handles
+                        let mut st2 = st2;
+                        let probe = |st: &mut AnnotationStore| -> Result<String, String> {
+                            guarded(std::panic::AssertUnwindSafe(|| {
+                                let cfg = st.config().clone().with_generate_ids(true);
+                                st.set_config(cfg);
+                                let r = st.add_resource(TextResourceBuilder::new().with_id("probe-resource").with_text("probe text")).map(|h| h.as_usize()).map_err(|e| format!("{}", e));
+                                let a = st.annotate(AnnotationBuilder::new().with_target(SelectorBuilder::textselector("probe-resource", Offset::simple(0, 5))).with_data("probe-set", "probe-key", "probe-value")).map_err(|e| format!("{}", e));
+                                let shape = |id: Option<&str>| id.map(|x| format!("{} characters", x.chars().count())).unwrap_or("none".into());
+                                match a {
+                                    Ok(h) => { let ann = st.annotation(h).expect("just added"); let d = ann.data().next(); format!("resource {:?}; annotation at handle {} with an identifier of {}; its data with an identifier of {}; dataset identifier {:?}", r, h.as_usize(), shape(ann.id()), shape(d.as_ref().and_then(|d| d.id())), d.as_ref().map(|d| d.set().id().map(|x| x.to_string()))) }
+                                    Err(e) => format!("resource {:?}; annotate failed: {}", r, e),
+                                }
+                            }))
+                        };
+                        let (p1, p2) = (probe(store), probe(&mut st2));
+                        rep.count("cbor:next-operation-probe");
+                        if p1 != p2 { rep.fail(if p2.is_err() { "panic" } else { "oracle" }, "C11/next-operation-differs", ctx.clone(), &format!("{:?}", p1), &format!("{:?}", p2)); }
                     }
                     Ok(Err(e)) => rep.fail("oracle", "C11/reload-fails", ctx.clone(), "the store loads", &format!("{}", e)),
                     Err(m) => rep.fail("panic", "C11/reload-panics", ctx.clone(), "the store loads", &m),
